@@ -94,3 +94,37 @@ func VerifAtomicMapStep() {
 	}
 	zzverif.Cover("atomic_map_step_done")
 }
+
+// GetOrCreate racing a second creator of the same key AND a deletion of another key (so that the number of entries
+// is the same before and after): still one counter per key, no lost update.
+//
+//verif:harness prop=C14 name=atomic_getorcreate_with_delete threads=4 sched=delay preempt=3 t_preempt=4 unwind=10 race=violation witness=lenient
+func VerifAtomicGetOrCreateDelete() {
+	am := NewAtomic[int, int64]()
+	am.GetOrCreate(7, 0) // another key, deleted concurrently
+	var p1, p2 *AtomicValue[int64]
+	done := make(chan struct{}, 3)
+	go func() {
+		p1 = am.GetOrCreate(1, 0)
+		p1.Add(1)
+		done <- struct{}{}
+	}()
+	go func() {
+		p2 = am.GetOrCreate(1, 0)
+		p2.Add(1)
+		done <- struct{}{}
+	}()
+	go func() {
+		am.Delete(7)
+		done <- struct{}{}
+	}()
+	<-done
+	<-done
+	<-done
+	zzverif.Assert(p1 == p2, "get_or_create_single_counter_per_key")
+	got, ok := am.Get(1)
+	zzverif.Assert(ok, "get_after_create")
+	zzverif.Assert(got == p1, "get_after_create")
+	zzverif.Assert(got.Load() == 2, "no_lost_update")
+	zzverif.Cover("atomic_getorcreate_with_delete_done")
+}
